@@ -6,6 +6,8 @@ CONSTANTS
   OpsMenu <- MCOpsMenu
   RecallMenu <- MCRecallMenu
   MatchArms <- MCMatchArms
+  ExtraSimple <- MCExtraSimple
+  WithElif = TRUE
   StrayBase <- MCStrayBase
   StrayOps <- MCStrayOps
   Enumerate = TRUE
